@@ -118,6 +118,12 @@ def strategy_describe(draw, tier):
         "attr_meta": draw(json_map),
         "shard_meta": draw(st.lists(json_map, min_size=1, max_size=3)),
         "session": draw(st.booleans()) or fmt != "tfrec",
+        # shard lists larger than the 128 KiB read buffer, full of multi-byte
+        # text (a size class of its own for everything that reads them)
+        "big_list": fmt != "tfrec" and draw(st.integers(0, 7)) == 0,
+        "big_pad": draw(st.integers(0, 40)),
+        # the description is edited in place and saved without new shards
+        "edit_in_place": draw(st.booleans()),
     }
 
 
@@ -193,6 +199,22 @@ def run_describe(case, ctx):
 
         compare("after-create")
         file_is_full("after-create")
+        if case.get("edit_in_place") and not case["defaults"]:
+            ds.metadata.description = case["metadata"]["description"] + " (v2)"
+            ds.metadata.custom_metadata["edited"] = {"n": [1, 2.5, None],
+                                                     "t": "äß"}
+            ds.dataset_structure.saved_data_description[0].custom_metadata[
+                "unit"] = "µV"
+            case["metadata"] = dict(case["metadata"])
+            case["metadata"]["description"] = ds.metadata.description
+            case["metadata"]["custom_metadata"] = dict(
+                ds.metadata.custom_metadata)
+            case["attr_meta"] = dict(
+                ds.dataset_structure.saved_data_description[0].custom_metadata)
+            ds.write_config(updated_infos=[])
+            compare("after-in-place-edit")
+            file_is_full("after-in-place-edit")
+            ctx.label("edit-in-place")
         if case["session"]:
             passed = []
             with ds.filler() as f:
@@ -219,6 +241,33 @@ def run_describe(case, ctx):
                     "description-roundtrip", ("shard-metadata-differs",),
                     f"shard custom_metadata passed {passed!r} reopened "
                     f"{seen!r}")
+        if case.get("big_list") and case["session"]:
+            pad = "x" * case["big_pad"]
+            with ds.filler() as f:
+                for k in range(45):
+                    f.write_example(
+                        values=dsops.example_for(desc, 1000 + k),
+                        split="test",
+                        custom_metadata={"k": k, "note": pad + "数据集" * 1100})
+            size = (root / "ds" / "test" / "shards_list.json").stat().st_size
+            try:
+                fresh2 = Dataset(root / "ds")
+                fresh2.check(show_progressbar=False)
+                got = [dsops.ex_id_of(e) for e in dsops.read_all(
+                    fresh2, "test", "sync", shuffle=0)]
+            except Exception as exc:  # pylint: disable=broad-except
+                ctx.fail(
+                    "relocated-opens", ("big-unicode-shard-list-fails",
+                                        type(exc).__name__),
+                    f"a dataset whose test/shards_list.json has {size} bytes "
+                    f"of non-ASCII shard metadata fails to verify/iterate "
+                    f"after reopening: {exc!r}")
+            else:
+                if got != list(range(1000, 1045)):
+                    ctx.fail("relocated-iterates",
+                             ("big-unicode-shard-list-misread",), f"{got}")
+            compare("after-big-list")
+            ctx.label("big-list")
         d = max(depth(case["metadata"]["custom_metadata"]),
                 depth(case["attr_meta"]),
                 max(depth(m) for m in case["shard_meta"]))
